@@ -84,7 +84,7 @@ def instantiate(W, root, extroot):
     for path, content in prod.items():
         os.makedirs(os.path.dirname(path), exist_ok=True)
         with open(path, "w") as f:
-            f.write(content)
+            f.write(G.expand_content(content))
     return exp
 
 
